@@ -578,7 +578,8 @@ def r8_15(ctx):
             n += 1
             ctx.check(not x.value.generators[0].ifs, f.fq, short(x), f"{m.relpath}:{x.lineno}", "cells rewrapped one for one",
                       f"`{short(x)}` filters the cell list while rewrapping it: the None placeholders that pad the last row disappear, rows are then cut at the wrong positions (with right_to_left the short row is placed from the wrong side)")
-    ctx.floor(n, 1, "one-for-one rewraps of the cell list in Columns")
+    if not n:
+        ctx.ok(f.where, "the cell list is not rebuilt from itself", f.fq)
 
 
 RULES = [r8_3, r8_4, r8_5, r8_6, r8_7, r8_8, r8_9, r8_10, r8_11, r8_12, r8_13, r8_14, r8_15]
